@@ -281,3 +281,56 @@ impl tokio::io::AsyncWrite for PartialSink {
         Poll::Ready(Ok(()))
     }
 }
+
+// ---------------------------------------------------------------------------------------------
+// synchronous sink that accepts at most `max` bytes per write (plain and vectored, the cut may fall
+// inside any slice) and answers some calls with ErrorKind::Interrupted (write_all must retry)
+
+pub struct PartialSyncSink {
+    pub out: Vec<u8>,
+    pub max: usize,
+    pub interrupt_mask: u64,
+    pub calls: usize,
+    interrupted: bool,
+}
+impl PartialSyncSink {
+    /// same encoding as `PartialSink::new`: low 7 bits = bytes per write
+    pub fn new(max: usize, interrupt_mask: u64) -> Self {
+        PartialSyncSink { out: vec![], max: (max & 0x7f).max(1), interrupt_mask, calls: 0, interrupted: false }
+    }
+    fn gate(&mut self) -> io::Result<()> {
+        if self.interrupt_mask >> (self.calls % 64) & 1 == 1 && !self.interrupted {
+            self.interrupted = true;
+            return Err(io::Error::new(io::ErrorKind::Interrupted, "qxv: interrupted write"));
+        }
+        self.interrupted = false;
+        self.calls += 1;
+        Ok(())
+    }
+}
+impl io::Write for PartialSyncSink {
+    fn write(&mut self, buf: &[u8]) -> io::Result<usize> {
+        self.gate()?;
+        let n = buf.len().min(self.max);
+        self.out.extend_from_slice(&buf[..n]);
+        Ok(n)
+    }
+    fn write_vectored(&mut self, bufs: &[io::IoSlice<'_>]) -> io::Result<usize> {
+        self.gate()?;
+        let mut left = self.max;
+        let mut n = 0;
+        for b in bufs {
+            let k = b.len().min(left);
+            self.out.extend_from_slice(&b[..k]);
+            n += k;
+            left -= k;
+            if left == 0 {
+                break;
+            }
+        }
+        Ok(n)
+    }
+    fn flush(&mut self) -> io::Result<()> {
+        Ok(())
+    }
+}
